@@ -3,7 +3,7 @@ import ast
 
 from ..astx import (calls_in, dotted, norm, src, iter_nodes, assigned_targets, assigned_names,
                     const_value, is_const, parent_chain)
-from ..lib import (cfg_nodes_with_call, node_calls, returns, stmt_assigns_attr, callee_last,
+from ..lib import (call_arg, relation, truth, other, cmp_views, core, holds_region, conditions, eval_conditions, relation_tests, atom_key, expand_condition, mode_mismatch_conditions, cfg_nodes_with_call, node_calls, returns, stmt_assigns_attr, callee_last,
                    is_name, is_self_attr, node_roots)
 from ..loader import AnalysisError
 from ..taint import Labels
@@ -45,8 +45,8 @@ def classify(call, args, env, L):
                 out.add('double-decoded')
             if not out:
                 out.add('text' if a <= {'other', 'const'} else 'other')
-            fin = [k for k in call.keywords if k.arg == 'final']
-            if fin and not is_const(fin[0].value, False):
+            fin = call_arg(call, 'final', 1)
+            if fin is not None and not is_const(fin, False):
                 out.add('final-true')
             return out
         # bytes.decode on raw data: per-chunk decoding, splits multi-byte characters
@@ -258,9 +258,8 @@ def check_coders(c, repo, units):
                 recv = dotted(k.func.value) or ''
                 if recv.endswith('._decoder') or recv.endswith('._encoder'):
                     n_calls += 1
-                    fin = [kw for kw in k.keywords if kw.arg == 'final']
-                    pos_final = len(k.args) > 1
-                    ok = (not fin or is_const(fin[0].value, False)) and not pos_final
+                    fin = call_arg(k, 'final', 1)
+                    ok = fin is None or is_const(fin, False)
                     c.check(ok, f, k, 'incremental coder called with final=False', witness=norm(k), kind='ast', tag='final:' + norm(k)[:40])
     c.need(n_calls >= 6, 'expected >= 6 incremental coder calls in the package, found %d' % n_calls)
     # no other decoder object is created on a read path
